@@ -417,6 +417,10 @@ def runStep (s : RunSt) (line : String) : RunSt × String :=
       | none => (s, "skip")
     | _, _ => (s, "bad-op")
   | ["tick"] => if s.live then ({ s with reg := s.reg.tick, regFuzzy := false }, "ok") else (s, "skip")
+  -- recorded by the harness: the delayed un-manage jobs of this tick did not finish in time; the managed
+  -- set is not compared (nor judged) from here on
+  | ["tick", "unsettled"] =>
+    if s.live then ({ s with reg := s.reg.tick, regFuzzy := false, regNA := true }, "ok") else (s, "skip")
   | ["managed"] =>
     if !s.live then (s, "skip") else
     if s.regNA || s.regFuzzy then (s, "n/a") else (s, fmtEndpoints s.reg.managed)
@@ -564,6 +568,7 @@ def judgeStep (s : JudgeSt) (op out : String) : JudgeSt :=
     | some b => { s with pendingP := some (op, out, b) }
     | none => s
   | ["tick"] => { s with ticked := true }
+  | ["tick", "unsettled"] => { s with ticked := false }
   | ["managed"] =>
     -- once the un-manage delay has elapsed HAProxy must hand the engine exactly the endpoints of the
     -- serving configuration (= of the tree on disk): a rolled-back push must not cost the running flows
